@@ -124,11 +124,22 @@ func c04R1(h H) {
 		// Del calls whose key derives from the hopHeaders global
 		var tableDels, tokenDels, connGets []ssa.Instruction
 		allInstrs(fn, func(in ssa.Instruction) {
+			// the header read as a map: h["Connection"] (every line of it)
+			if lk, ok := in.(*ssa.Lookup); ok {
+				if k, isK := constString(lk.Index); isK && k == "Connection" && strings.HasSuffix(lk.X.Type().String(), "http.Header") {
+					connGets = append(connGets, in)
+				}
+				return
+			}
 			c := callOf(in)
 			if c == nil || c.IsInvoke() {
 				return
 			}
 			switch calleeName(c) {
+			case "(net/http.Header).Values":
+				if s, ok := constString(c.Args[1]); ok && s == "Connection" {
+					connGets = append(connGets, in)
+				}
 			case "(net/http.Header).Del":
 				if derives(c.Args[1], func(v ssa.Value) bool { return isGlobalNamed(v, "hopHeaders") }, flowOpts{}) {
 					tableDels = append(tableDels, in)
